@@ -31,13 +31,13 @@ RULE = ("seeded random Vectors, DataFrames, GeoJSON frames (incl. null geometrie
 ASSUMPTIONS = [
     "the equal-width clause is skipped for a block containing a character for which wcwidth is undefined (control characters)",
     "max_rows=0/None mean 'default' by the signature, so only max_rows >= 1 is judged for the row-count clause",
-    "column names are single-line strings; ListOfDicts keys are strings",
+    "a column name with a line break is expected to show as its first line followed by an ellipsis (like a multi-line cell); ListOfDicts keys are strings",
 ]
 REACH = {"quick": {"cls:vector": 900, "cls:frame": 2000, "cls:geojson": 500, "cls:lod": 800, "layout-parsed": 2000, "rows-cut": 300, "print_-compared": 1500,
                    "wide-chars": 500, "zero-row-frame": 100, "geojson:null-geometry": 150, "multi-block": 300, "grouped-frame": 200}}
 
 WIDE = ["日本語", "ｗｉｄｅ", "é", "\U0001F600", "漢", "ö", "áb"]
-MULTI = ["line1\nline2", "a\nb\nc", "tab\there", "cr\r\nlf", "lone\rcr", "sep\u2028arator", "form\x0cfeed", "next\x85line", "para\u2029graph"]
+MULTI = ["trail\n", "\n", "crlf\r\n", "ls\u2028", "line1\nline2", "a\nb\nc", "tab\there", "cr\r\nlf", "lone\rcr", "sep\u2028arator", "form\x0cfeed", "next\x85line", "para\u2029graph"]
 KINDS = ["bool", "int", "float", "str", "lstr", "ustr", "date", "datetime", "obool", "obj", "float32", "int32", "uint64", "bytes", "timedelta", "complex", "datetime_ns", "datetime_s", "int_be"]
 
 def _values(rng, kind, n):
@@ -87,7 +87,7 @@ def generate(rng, tier):
     elif cls in ("frame", "geojson"):
         nrow = rng.choice([0, 1, 2, 5, 12, 120])
         ncol = rng.choice([0, 1, 2, 4, 8]) if cls == "frame" else rng.choice([0, 1, 3])
-        names = rng.sample(["a", "b", "c", "value", "long_column_name_here", "日本", "ｗｉｄｅ", "x y", "é", "k1", "k2", "n", "\u2764\ufe0f", ""], ncol)
+        names = rng.sample(["a", "b", "c", "value", "long_column_name_here", "日本", "ｗｉｄｅ", "x y", "é", "k1", "k2", "n", "\u2764\ufe0f", "", "two\nlines", "brk\n"], ncol)
         spec = [(nm, k, _values(rng, k, nrow)) for nm, k in ((nm, rng.choice(KINDS)) for nm in names)]
         case["spec"] = spec
         opts = {}
@@ -166,6 +166,8 @@ def _parse_frame(res, text, names, labels, nrow, max_rows, ctx):
     lab_char = 0
     for nm, lab in zip(names, labels):
         found = False
+        if nm and nm.splitlines() != [nm]:
+            nm = (nm.splitlines() or [""])[0] + "…"     # a multi-line name is shown by its first line and an ellipsis, like a multi-line cell
         while pos_block < len(headers):
             h = headers[pos_block][0]
             if nm == "":
